@@ -128,6 +128,13 @@ smooth::Tangent<G>* pool_make_tan(In& in, int index) {
     (*a)(0) = static_cast<smooth::Scalar<G>>(in.sym(3.0));
     return a;
   }
+  if (index == 2) {
+    // norm just below pi: the near-cut-locus branches of log / dr_expinv
+    auto* a = new smooth::Tangent<G>(make_tan<G>(in, 0));
+    const auto n = a->norm();
+    if (n > 0) *a *= static_cast<smooth::Scalar<G>>((3.14159265358979323846 - 1e-7) / n);
+    return a;
+  }
   return new smooth::Tangent<G>(make_tan<G>(in, index));
 }
 template<class G>
